@@ -48,9 +48,23 @@ class Attack(object):
         self.w.net.inject("s2c", cl.addr, d, origin)
         self.injected.inc("client|" + origin.split("@")[0].split(":")[0])
 
+    def continuity(self, cl, sc0, label):
+        """world-level oracle: attacker datagrams must not make the server retire / replace the established
+        connection object of the victim (that would change its key, status and liveness without any authentic input)"""
+        w = self.w
+        cur = w.ctxt.connections.get(cl.addr)
+        if sc0 is not None and cur is not sc0 and not getattr(self, "_continuity_reported", False):
+            self._continuity_reported = True
+            self.run.report("C01", "established-connection-replaced-by-unauthenticated-datagram",
+                            "after presenting %s datagrams from the victim's address the server's connection object for %s is %s (phase %s)" % (
+                                label, cl.addr, "gone" if cur is None else "a different object", w.phase),
+                            {"origin": label, "role": "server", "phase": w.phase})
+        self.run.c.inc("c01_continuity_checks")
+
     def present(self, items, target, cl, per_tick=2, keep_traffic=None):
         """items: list of (label, datagram); target 'server' (spoofed from cl.addr) or 'client'"""
         i = 0
+        sc0 = self.run.sconn(cl) if target == "server" else None
         for label, d in items:
             if target == "server":
                 self.to_server(cl.addr, d, label)
@@ -61,7 +75,11 @@ class Attack(object):
                 if keep_traffic:
                     keep_traffic()
                 self.w.step()
+                if sc0 is not None:
+                    self.continuity(cl, sc0, label.split("@")[0])
         self.w.step(3)
+        if sc0 is not None:
+            self.continuity(cl, sc0, "the last batch of")
 
     def genuine(self, direction, addr, n=3, pick="short", types=None):
         """recorded genuine datagrams of one flow"""
@@ -198,6 +216,43 @@ def history(cfg, case, out):
         w.net.set(c2s=L.Policy(delay=(0.004, 0.01)), s2c=L.Policy(delay=(0.004, 0.01)))
         w.step(60)
 
+        # ---------- phase: the established connection is silent for a while (link cut for 1-4 s, shorter than every
+        #            timeout); forged datagrams arrive from the victim's address meanwhile; then the link heals
+        w.phase = "silent-established"
+        w.step(120)                  # let the client's socket buffer (filled with junk by the previous phases) drain
+        v = a
+        if getattr(a.udp.conn.status, "value", 0) != 2 or run.sconn(a) is None:
+            # the junk flood of the earlier phases can legitimately starve a UDP client (socket buffer overflow);
+            # the silent phase then uses a fresh victim session from another address
+            run.c.inc("c01_fresh_victim_for_silent_phase")
+            v = w.connect_client()
+            v.updates_per_step = 2
+            for _ in range(30):
+                run.app.send(v, "client", 40, 0)
+                w.step()
+        sc_before = run.sconn(v)
+        w.net.set(c2s=L.Policy(outage=True), s2c=L.Policy(outage=True))
+        silent_ticks = int(r.uniform(1.2, 3.8) / w.dt)
+        w.step(silent_ticks // 2)
+        items = atk.classes_for("c2s", v, run.sconn(v), False)
+        hello_like = [x for x in items if x[0].startswith("forged:type=1")]
+        items = hello_like + r.sample(items, min(len(items), 40))
+        for k, (label, d) in enumerate(items):
+            w.offer_server(v.addr, d, label)            # straight to the entry point: the path is cut for honest traffic only
+            atk.injected.inc("server|" + label.split("@")[0].split(":")[0])
+            if k % 4 == 3:
+                w.step()
+                atk.continuity(v, sc_before, label.split("@")[0])
+        w.step(3)
+        atk.continuity(v, sc_before, "silent-phase")
+        w.net.set(c2s=L.Policy(delay=(0.004, 0.01)), s2c=L.Policy(delay=(0.004, 0.01)))
+        w.step(40)
+        if run.sconn(v) is not sc_before or getattr(v.udp.conn.status, "value", 0) != 2:
+            run.report("C01", "session-lost-after-silent-phase", "the session did not survive a %.1fs outage with forged datagrams (server object %s, client status %s)" % (
+                (silent_ticks // 2 + len(items) // 4) * w.dt, "same" if run.sconn(v) is sc_before else "replaced/gone", v.udp.conn.status), {"phase": w.phase})
+        else:
+            run.c.inc("c01_sessions_survived_silent_phase")
+
         # ---------- phase: a second live session's ciphertext presented to this one (sealed under another key)
         w.phase = "other-session"
         b = w.connect_client()
@@ -256,7 +311,7 @@ def finish(tier, seed, results):
     need(m["counters"], ["c01_forged_reached_recv", "c01_forged_keyed", "c01_forged_prekey", "recv_genuine_changed_state",
                          "inj:server|forged", "inj:client|forged", "inj:server|bitflip", "inj:client|bitflip",
                          "inj:server|truncation", "inj:server|header-rewrite-crc", "inj:server|wrong-key", "inj:client|wrong-key",
-                         "inj:server|reflection", "inj:server|random"], inconclusive)
+                         "inj:server|reflection", "inj:server|random", "c01_continuity_checks", "c01_sessions_survived_silent_phase"], inconclusive)
     cov = {
         "evaluations": m["evaluations"],
         "distinct_nontrivial": m["distinct_nontrivial"],
